@@ -49,6 +49,8 @@ def generate(rng, n, tier):
                 # an operand with trailing clauses of its own: still its own text, wrapped iff the dialect asks for it
                 op["tail"] = rng.choice([".orderby(T('%s').a)" % tbl, ".limit(2)", ".limit(0)", ".offset(1)",
                                          ".orderby(T('%s').a, order=Order.desc).limit(2)" % tbl, "[1:3]"])
+            if cls == "vertica" and rng.random() < 0.4:
+                op["tail"] = op.get("tail", "") + ".hint('lbl%d')" % j     # a hinted operand is still its own text, in parentheses
             if rng.random() < 0.08:
                 # `SELECT *`: ONE select term as far as the documented arity check is concerned
                 op["star"] = True
@@ -161,6 +163,12 @@ def examine(case):
     kwq = {"quote_char": base.QUOTE_CHAR, "dialect": base.dialect, "alias_quote_char": base.ALIAS_QUOTE_CHAR,
            "as_keyword": base.as_keyword, "secondary_quote_char": "'"}
     own = [ns.ev(s).get_sql(subquery=wrap, **kwq) for s in opsrcs]
+    # an operand inside the chain is its own statement text, in parentheses iff the dialect wraps operands
+    for s_, o in zip(opsrcs, own):
+        plain = ns.ev(s_).get_sql(subquery=False, **kwq)
+        if o != ("(%s)" % plain if wrap else plain):
+            F("operand-text", "operand renders %s inside the chain but %s on its own | %s" % (o, plain, s_))
+            break
     exp = own[0]
     for m, o in zip(case["meths"], own[1:]):
         exp += " %s %s" % (METHODS[m], o)
